@@ -280,7 +280,7 @@ RunRes run_forked(const std::vector<uint32_t> &ch) {
     put_str(o, c.symptom);
     put_str(o, c.detail);
     put_str(o, g_case.desc);
-    uint64_t nums[3] = {g_case.nontrivial ? 1u : 0u, g_case.shape_hash, g_case.evals};
+    uint64_t nums[4] = {g_case.nontrivial ? 1u : 0u, g_case.shape_hash, g_case.evals, g_case.digest};
     o.append((const char *)nums, sizeof nums);
     uint32_t nc = (uint32_t)g_case.classes.size();
     o.append((const char *)&nc, 4);
@@ -334,12 +334,13 @@ RunRes run_forked(const std::vector<uint32_t> &ch) {
   get_str(b, p, r.symptom);
   get_str(b, p, r.detail);
   get_str(b, p, g_case.desc);
-  uint64_t nums[3];
+  uint64_t nums[4];
   memcpy(nums, b.data() + p, sizeof nums);
   p += sizeof nums;
   g_case.nontrivial = nums[0] != 0;
   g_case.shape_hash = nums[1];
   g_case.evals = nums[2];
+  g_case.digest = nums[3];
   uint32_t nc;
   memcpy(&nc, b.data() + p, 4);
   p += 4;
@@ -413,6 +414,8 @@ int engine_main(int argc, char **argv, const Harness &h) {
   g_prop = h.property_id;
   std::string replay, mode, known_path;
   bool isolate = h.always_isolate;
+  long dump_index = -1;
+  bool want_digests = false;
   int mode_arg0 = argc;
   for (int i = 1; i < argc; i++) {
     std::string a = argv[i];
@@ -424,6 +427,12 @@ int engine_main(int argc, char **argv, const Harness &h) {
       known_path = argv[++i];
     else if (a == "--isolate")
       isolate = true;
+    else if (a == "--no-isolate")
+      isolate = false;
+    else if (a == "--dump-index" && i + 1 < argc)
+      dump_index = atol(argv[++i]);
+    else if (a == "--digests")
+      want_digests = true;
     else if (a == "--case-timeout" && i + 1 < argc)
       g_case_timeout = atoi(argv[++i]);
     else if (a == "--mode" && i + 1 < argc) {
@@ -481,6 +490,7 @@ int engine_main(int argc, char **argv, const Harness &h) {
     RunRes r = isolate ? run_forked(ch) : run_inproc(ch);
     alarm(0);
     printf("case: %s\n", g_case.desc.c_str());
+    printf("digest=%016llx\n", (unsigned long long)g_case.digest);
     for (auto &k : g_case.known) printf("known-finding-hit: %s\n", k.c_str());
     if (r.ok) {
       printf("REPLAY PASS property=%s\n", g_prop.c_str());
@@ -540,9 +550,25 @@ int engine_main(int argc, char **argv, const Harness &h) {
       alarm(0);
       return r;
     };
+    long case_index = -1;
+    FILE *digf = want_digests ? fopen((g_out + "/digests.bin").c_str(), "wb") : nullptr;
     bool ok = rc::check(std::string("property ") + g_prop, [&]() {
       std::vector<uint32_t> ch = *gen;
+      case_index++;
+      if (dump_index >= 0) {
+        // only reproduce the generation sequence; write out the requested case and stop there
+        if (case_index == dump_index) {
+          write_case(g_out + "/dumped.case", ch, "", "", "");
+          fflush(nullptr);
+          _exit(0);
+        }
+        return;
+      }
       RunRes r = evaluate(ch);
+      if (digf) {
+        uint64_t dg = r.ok ? g_case.digest : 0;
+        fwrite(&dg, 8, 1, digf);
+      }
       if (r.ok) {
         commit(g_case);
         if (++since_flush >= 2000) {
@@ -684,6 +710,7 @@ int engine_main(int argc, char **argv, const Harness &h) {
       write_case(found, ch, r.symptom, r.detail, desc);
       RC_FAIL(r.symptom + ": " + r.detail + "\ncase: " + desc);
     });
+    if (digf) fclose(digf);
     write_stats();
     unlink(cur.c_str());
     rc_exit = ok ? 0 : 10;
